@@ -102,4 +102,9 @@ run C10 && mut C10 x/dualstaking/keeper/delegator_reward.go '		k.RemoveDelegator
 ' ''
 run C10 && mut C10 x/dualstaking/keeper/delegator_reward.go '	fullProviderReward := providerReward.Add(leftoverRewards...)' '	fullProviderReward := providerReward.Add(leftoverRewards...).Add(leftoverRewards...)'
 run C14 && mut C14 x/fixationstore/types/fixationstore.go '	if found && block > ctxBlock && entry.IsDeleted(ctx) {' '	if false && block > ctxBlock && entry.IsDeleted(ctx) {'
+run C12 && mut C12 x/subscription/keeper/subscription.go '	sub.MonthCuLeft = sub.MonthCuTotal
+	sub.Block = block' '	sub.Block = block'
+run C12 && mut C12 x/subscription/keeper/subscription.go '	sub.DurationBought = duration
+	sub.DurationLeft += duration' '	sub.DurationBought = duration
+	sub.DurationLeft = duration'
 exit 0
